@@ -136,6 +136,16 @@ func runREADREJECT(c *Ctx) {
 			what := "error return of " + ir.FuncName(fn)
 			k := errOrigin(c, r.Results[ei], map[ssa.Value]bool{}, 0)
 			if k == nil {
+				// a package-level error value (a sentinel) is an answer of the protocol — "no more diffs" — only where
+				// the state of the iteration says so; returned on a condition over what was read from the tree it is a
+				// made-up rejection like any other
+				if sv := ir.ResolveCell(r.Results[ei]); isSentinel(sv) {
+					if why := sentinelGuardOK(r.Block()); why == "" && inventedErrorAccepted(r.Block()) == "" && len(ir.FactsAt(r.Block())) > 0 {
+						c.Violation(fn, pos, "read operation rejects a tree on a condition of its own",
+							fmt.Sprintf("%s returns the package-level error %s on a condition over what it read from the tree (%s): a read operation on a tree the writer produced must not fail on its own", ir.FuncName(fn), pathDesc(ir.Sym(sv)), guardDesc(r.Block())))
+						continue
+					}
+				}
 				c.OK(pos, what, "is or wraps the error of a call, a sentinel, or the caller's own value", false)
 				continue
 			}
@@ -170,8 +180,22 @@ func inventedErrorAccepted(b *ssa.BasicBlock) string {
 		return "under a nil test (an absent configuration value, link or destination)"
 	}
 	if ex, ok := f.Cond.(*ssa.Extract); ok && ex.Index == 1 && !f.Truth {
-		if _, isTA := ex.Tuple.(*ssa.TypeAssert); isTA {
-			return "in the default arm of a switch over dynamic types (an internal 'cannot happen')"
+		if ta, isTA := ex.Tuple.(*ssa.TypeAssert); isTA {
+			// the default arm of a switch: at least two dynamic types were tried for the same value. A single failed
+			// assertion (`n, ok := link.(*mastNode); if !ok { return error }`) rejects every other legal form of it —
+			// a link may be a name, a node or nil.
+			n := 0
+			for _, g := range facts {
+				if gx, ok := g.Cond.(*ssa.Extract); ok && gx.Index == 1 && !g.Truth {
+					if ta2, ok := gx.Tuple.(*ssa.TypeAssert); ok && ta2.X == ta.X {
+						n++
+					}
+				}
+			}
+			if n >= 2 {
+				return "in the default arm of a switch over dynamic types (an internal 'cannot happen')"
+			}
+			return ""
 		}
 	}
 	// the default arm of a switch over a classification (`switch form { case linkStored: … case linkLoaded: … default: }`):
@@ -220,4 +244,51 @@ func guardDesc(b *ssa.BasicBlock) string {
 		parts = parts[len(parts)-4:]
 	}
 	return "guard: " + strings.Join(parts, " && ")
+}
+
+// sentinelGuardOK: the innermost condition under which a sentinel is returned speaks about the state of the iteration
+// itself (a flag or a stack length of the cursor / diff state), or compares an error with a sentinel (passing it on).
+func sentinelGuardOK(b *ssa.BasicBlock) string {
+	facts := ir.FactsAt(b)
+	if len(facts) == 0 {
+		return "unconditional"
+	}
+	var leaves func(v ssa.Value, d int) bool
+	leaves = func(v ssa.Value, d int) bool {
+		if d > 5 {
+			return false
+		}
+		switch x := v.(type) {
+		case *ssa.Const:
+			return true
+		case *ssa.BinOp:
+			return leaves(x.X, d+1) && leaves(x.Y, d+1)
+		case *ssa.UnOp:
+			if x.Op == token.MUL {
+				return navStateRoot(x.X) != nil || isSentinel(x)
+			}
+			return leaves(x.X, d+1)
+		case *ssa.Call:
+			if bi, ok := x.Call.Value.(*ssa.Builtin); ok && (bi.Name() == "len" || bi.Name() == "cap") {
+				return leaves(x.Call.Args[0], d+1)
+			}
+			return ir.IsErrorType(x.Type())
+		case *ssa.Extract:
+			return ir.IsErrorType(x.Type())
+		case *ssa.Phi:
+			for _, e := range x.Edges {
+				if !leaves(e, d+1) {
+					return false
+				}
+			}
+			return true
+		case *ssa.Parameter:
+			return ir.IsErrorType(x.Type())
+		}
+		return false
+	}
+	if leaves(facts[0].Cond, 0) {
+		return "guarded by the state of the iteration"
+	}
+	return ""
 }
